@@ -169,7 +169,7 @@ int main (int argc, char **argv) {
         port = sexp_open_input_string(ctx, str);
         do { res = sexp_read(ctx, port); } while (res != SEXP_EOF && !sexp_exceptionp(res) && !interrupted);
       } else if (!strcmp(mode, "load")) {
-        char tmpl[] = "/tmp/evalseq-load-XXXXXX";
+        char tmpl[] = "./evalseq-load-XXXXXX";   /* in the harness's scratch working directory */
         int fd = mkstemp(tmpl);
         if (fd >= 0) {
           if (write(fd, body, end - body) < 0) {}
